@@ -1438,16 +1438,25 @@ def evaluate__parse_xml_fragment(self: XPathFunction, context: ta.ContextType = 
         raise self.error('FODC0006', "<!DOCTYPE is not allowed")
 
     etree = context.etree
+
+    def xml_parser() -> Any:
+        if hasattr(etree, 'TreeBuilder') and etree.__name__ == 'xml.etree.ElementTree':
+            # keep comments and processing instructions, like fn:parse-xml
+            return etree.XMLParser(
+                target=etree.TreeBuilder(insert_comments=True, insert_pis=True)
+            )
+        return None
+
     try:
         if self.parser.defuse_xml:
-            root = etree.XML(defuse_xml(arg))
+            root = etree.XML(defuse_xml(arg), xml_parser())
         else:
-            root = etree.XML(arg)
+            root = etree.XML(arg, xml_parser())
     except etree.ParseError as err:
         # A not parsable fragment: try to parse including XML data in a dummy element.
         try:
             dummy_element_node = get_node_tree(
-                root=etree.XML(f'<document>{arg}</document>'),
+                root=etree.XML(f'<document>{arg}</document>', xml_parser()),
                 namespaces=self.parser.namespaces
             )
         except etree.ParseError:
